@@ -276,6 +276,18 @@ def margin_rules(ctx, w, S, R):
         is_ctor = any(s["k"] == "assign" and s["rv"]["k"] == "aggregate" and s["rv"].get("adt") == S.term_ty for bl in w.body(fn).blocks for s in bl["stmts"])
         ctx.check(fn in allowed or is_ctor, "V6", "writer:" + fn, "%s writes the scroll margins; only DECSTBM, DECSTR, RIS and resize may" % fn, loc=w.stmt_loc(fn, direct[0]),
                   sample={"writer": fn})
+    # the resets put the region back to the FULL screen: top = 0, bottom = rows - 1 (rows, not cols; not the old margin)
+    for fn in sorted(w.bodies):
+        if S._impl_of(fn) != S.term_ty or fn == S.resize_fn or fn in w.handler("Decstbm"):
+            continue
+        for f2, pt, p, t in w.assign_sites({fn}, lambda p: p in (tm, bm)):
+            t = WD.strip_names(t)
+            if p == tm:
+                okv = t == ("const", 0)
+            else:
+                okv = t == ("binop", "Sub", rows_t, ("const", 1))
+            ctx.check(okv, "V6", "reset:%s:%s" % (fn, p[1]), "%s sets %s to %s; a reset puts the scroll region back to the full screen (top 0, bottom rows - 1)" % (fn, p[1], w.tstr(fn, t)),
+                      loc=w.stmt_loc(fn, pt), sample={"fn": fn, "field": p[1], "value": w.tstr(fn, t)})
     rf = S.resize_fn
     b = w.body(rf)
     T = w.terms(rf)
@@ -312,7 +324,8 @@ def margin_rules(ctx, w, S, R):
                         blkj = b.blocks[pt[0]]["stmts"][pt[1]]
                         val_t = WD.strip_names(T.rvalue(blkj["rv"], pt))
                         want = ("const", 0) if fld == tm else ("binop", "Sub", ("load", ("arg3",)), ("const", 1))
-                        ok2 = val_t == want or (fld == bm and val_t[0] == "binop" and val_t[1] == "Sub" and val_t[3] == ("const", 1))
+                        ok2 = val_t == want or (fld == bm and val_t == ("binop", "Sub", rows_t, ("const", 1)) and
+                                                any(b.path_exists(wp, pt) for wp, ps2 in E.stmt_writes[rf].items() if ("arg1", R["rows"]) in ps2))
                         ctx.check(ok2, "V6", "resize:%s:%s:value" % (name, fld[1]), "resize sets %s to %s; a height change must reset the region to the full screen" % (fld[1], w.tstr(rf, val_t)),
                                   loc=w.stmt_loc(rf, pt))
         # every margin write in resize sits in a non-Equal arm of this switch
